@@ -14,5 +14,10 @@ void H_cGet64(void) {
     __CPROVER_assume(spec_tagged_announced(z[0]) == n);  /* exactly the announced bytes are readable */
     varintTaggedGet64(z, &r); CANARY();
 }
+void H_cTaggedGet(void) {
+    int32_t n; __CPROVER_assume(n >= 0 && n <= 9);
+    uint8_t *z = malloc((size_t)n); __CPROVER_assume(z != NULL); uint64_t r;
+    varintTaggedGet(z, n, &r); CANARY();
+}
 void H_cExtPut(void) { uint64_t v; varintWidth w; __CPROVER_assume(w >= 1 && w <= 8); uint8_t *p = malloc(w); __CPROVER_assume(p != NULL); varintExternalPutFixedWidth(p, v, w); CANARY(); }
 void H_cExtGet(void) { varintWidth w; __CPROVER_assume(w >= 1 && w <= 8); uint8_t *p = malloc(w); __CPROVER_assume(p != NULL); varintExternalGet(p, w); CANARY(); }
